@@ -283,6 +283,7 @@ REC_QUICK = [("base", True), ("ign-param", True), ("xkey", True), ("base", False
 OPS_QUICK = ["req:base", "req:ign-param", "req:xkey", "toggle:server_replay_ignore_params", "toggle:server_replay_use_headers",
              "reuse:server_replay_reuse", "extra:kill"]
 OPS_QUICK_T = OPS_QUICK + ["extra:404"]  # thorough: appended, so quick counterexamples replay under either tier
+OPS_REUSE = ["req:base", "req:ign-param", "toggle:server_replay_ignore_params", "reuse:server_replay_reuse"]
 REC_FORM = [("form5", True), ("form6", True), ("raw5", True), ("form5", False)]
 OPS_FORM = ["req:form5", "req:form6", "req:raw5", "toggle:server_replay_ignore_payload_params", "toggle:server_replay_ignore_content",
             "reuse:server_replay_reuse", "extra:kill"]
@@ -304,6 +305,9 @@ def obligations(tier):
         Symx("history-query-headers", lambda X: h_history(X, REC_QUICK, 3, ops_q, n),
              bounds=f"recorded set of 1..3 flows from {REC_QUICK} x every history of <= {n} steps over {ops_q}",
              encoded=ENCODED, must_reach=reach + ([] if quick else ["unmatched-while-active/404"]), parallel_depth=3),
+        Symx("history-reuse-reindex", lambda X: h_history(X, REC_QUICK[:3], 2, OPS_REUSE, 4 if quick else 5),
+             bounds=f"recorded set of 1..2 flows x every history of <= {4 if quick else 5} steps over {OPS_REUSE} (serve with reuse, change a matching option, serve again)",
+             encoded=ENCODED, must_reach=["end", "served", "option-change", "served-with-reuse"], parallel_depth=3),
     ]
     if not quick:
         obs += [
